@@ -2,7 +2,14 @@
 
 package portalwire
 
+import (
+	"github.com/ethereum/go-ethereum/p2p/enode"
+	bitfield "github.com/OffchainLabs/go-bitfield"
+)
+
 func init() {
+	vsRegister("C19.framing_by_version", vhC19FramingByVersion)
+	vsRegister("C19.v0_accept_as_codes", vhC19V0AcceptAsCodes)
 	vsRegister("C19.max_common", vhC19MaxCommon)
 	vsRegister("C19.negotiate", vhC19Negotiate)
 }
@@ -95,4 +102,87 @@ func vhC19Negotiate() {
 	} else {
 		vsAssert(err2 == nil && v2 == v, "cached-value-stable")
 	}
+}
+
+var (
+	vhNegVersion uint8
+	vhNegFails   bool
+)
+
+func vmNegotiated(p *PortalProtocol, n *enode.Node) (uint8, error) {
+	if vhNegFails {
+		return 0, vmErrLoad
+	}
+	return vhNegVersion, nil
+}
+
+// uTP content framing follows the negotiated version on both sides: for ANY negotiated version
+// (0..255) what one side frames the other - having negotiated the same version - unframes to the
+// same bytes; version 1 frames with the length prefix, the others send the bytes as they are; no
+// common version means no transfer on either side.
+//
+//verif:harness C19.framing_by_version unwind=12
+//verif:model (*github.com/zen-eth/shisui/portalwire.PortalProtocol).getOrStoreHighestVersion = vmNegotiated
+//verif:param L=200/400
+func vhC19FramingByVersion() {
+	vhNegVersion, vhNegFails = vsU8("negotiated-version"), vsBool("no-common-version")
+	n := vsInt("len")
+	vsAssume(n >= 0 && n <= vsParam("L"))
+	data := vsBytesN("data", n)
+	p := &PortalProtocol{}
+	peer := new(enode.Node)
+	framed, err := p.encodeUtpContent(peer, data)
+	if vhNegFails {
+		vsAssert(err != nil, "no-common-version-no-framing")
+		_, derr := p.decodeUtpContent(peer, data)
+		vsAssert(derr != nil, "no-common-version-no-unframing")
+		vsCover("no-common-version")
+		return
+	}
+	vsAssert(err == nil, "framed")
+	if vhNegVersion == 1 {
+		vsAssertBytesEq(framed, encodeSingleContent(data), "version-1-frames-with-length-prefix")
+		vsCover("version-1")
+	} else {
+		vsAssertBytesEq(framed, data, "other-versions-send-the-bytes-as-they-are")
+	}
+	back, derr := p.decodeUtpContent(peer, framed)
+	vsAssert(derr == nil, "unframed")
+	vsAssertBytesEq(back, data, "unframing-returns-the-bytes-framed")
+}
+
+// handleV0Offer (the API's view of a version-0 ACCEPT): when this node also speaks version 1 the
+// bit list becomes one code per offered key, in order - accepted for a set bit, declined for a
+// clear one; otherwise the bit list is passed through.
+//
+//verif:harness C19.v0_accept_as_codes unwind=80
+func vhC19V0AcceptAsCodes() {
+	k := vsChoose("keys", 10)
+	bits := bitfield.NewBitlist(uint64(k))
+	want := make([]bool, k)
+	for i := 0; i < k; i++ {
+		want[i] = vsBool("accepted")
+		if want[i] {
+			bits.SetBitAt(uint64(i), true)
+		}
+	}
+	speaksV1 := vsBool("speaks-v1")
+	p := &PortalProtocol{currentVersions: protocolVersions{0}}
+	if speaksV1 {
+		p.currentVersions = protocolVersions{0, 1}
+	}
+	out := p.handleV0Offer(bits)
+	if !speaksV1 {
+		vsAssertBytesEq(out, bits, "passed-through-when-only-version-0")
+		return
+	}
+	vsAssert(len(out) == k, "one-code-per-key")
+	for i := 0; i < k; i++ {
+		if want[i] {
+			vsAssert(out[i] == byte(Accepted), "set-bit-is-accepted")
+		} else {
+			vsAssert(out[i] == byte(GenericDeclined), "clear-bit-is-declined")
+		}
+	}
+	vsCover("converted")
 }
